@@ -1,6 +1,7 @@
 //! fcverif: conformance harness binding the TLA+ specifications in /verif/spec to the
 //! flatcontainer crate in /repo (path dependency, rebuilt from the working tree).
 mod catalogue;
+mod huff;
 mod ic;
 mod interp;
 mod judge;
@@ -36,6 +37,20 @@ fn main() {
             stack::cmd_replay(file, &prop, &out);
         }
         "stacks" => println!("{}", serde_json::to_string_pretty(&stack::stacks_json()).unwrap()),
+        "huff-run" => {
+            let file = args.get(2).expect("scenario file");
+            let ty = arg(&args, "--ty").unwrap_or("u8".into());
+            let out = arg(&args, "--out").expect("--out");
+            let n = arg(&args, "--nslots").and_then(|x| x.parse().ok()).unwrap_or(2);
+            huff::cmd_run(file, &ty, &out, n);
+        }
+        "huff-gen" => {
+            let seed = arg(&args, "--seed").and_then(|x| x.parse().ok()).unwrap_or(1);
+            let count = arg(&args, "--count").and_then(|x| x.parse().ok()).unwrap_or(100);
+            let ty = arg(&args, "--ty").unwrap_or("u8".into());
+            let out = arg(&args, "--out").expect("--out");
+            huff::cmd_gen(seed, count, &out, &ty);
+        }
         "catalogue" => println!("{}", serde_json::to_string_pretty(&catalogue::catalogue_json()).unwrap()),
         "profile" => println!("{}", util::profile_name()),
         _ => {
